@@ -52,28 +52,36 @@ Lemma no_counterexample : tables_counterexample = None.
 Proof. vm_compute. reflexivity. Qed.
 
 (* the counterexample search is complete: None means agreement on every key of the domain *)
-Lemma counterexample_complete :
-  tables_counterexample = None -> forall k, In k all_keys -> agree_on k = true.
+Lemma counterexample_complete_gen t1 t2 ks :
+  counterexample_of t1 t2 ks = None -> forall k, In k ks -> agree t1 t2 k = true.
 Proof.
-  unfold tables_counterexample. intros H k Hin.
-  destruct (find (fun k => negb (agree_on k)) all_keys) eqn:F; [discriminate|].
-  pose proof (find_none _ _ F k Hin) as N. cbn beta in N. destruct (agree_on k); [reflexivity | discriminate].
+  unfold counterexample_of. intros H k Hin.
+  destruct (find (fun k => negb (agree t1 t2 k)) ks) eqn:F; [discriminate|].
+  pose proof (find_none _ _ F k Hin) as N. cbn beta in N. destruct (agree t1 t2 k); [reflexivity | discriminate].
 Qed.
 
 Lemma opt_eqb_refl a : opt_eqb a a = true.
 Proof. destruct a; cbn [opt_eqb]; [apply String.eqb_refl | reflexivity]. Qed.
 
+Lemma counterexample_sound_gen t1 t2 ks k c m :
+  counterexample_of t1 t2 ks = Some (k, c, m) ->
+  In k ks /\ c = lookup t1 k /\ m = lookup t2 k /\ c <> m.
+Proof.
+  unfold counterexample_of. destruct (find (fun k => negb (agree t1 t2 k)) ks) as [k0|] eqn:F; [|discriminate].
+  apply find_some in F. destruct F as [Hin Hn]. unfold agree in Hn.
+  intros H. injection H as Hk Hc Hm. subst k0.
+  split; [exact Hin|]. split; [symmetry; exact Hc|]. split; [symmetry; exact Hm|].
+  intros E. rewrite Hc, Hm, E, opt_eqb_refl in Hn. discriminate.
+Qed.
+
+Lemma counterexample_complete :
+  tables_counterexample = None -> forall k, In k all_keys -> agree_on k = true.
+Proof. exact (counterexample_complete_gen compiled_tbl meta_tbl all_keys). Qed.
+
 Lemma counterexample_sound k c m :
   tables_counterexample = Some (k, c, m) ->
   In k all_keys /\ c = lookup compiled_tbl k /\ m = lookup meta_tbl k /\ c <> m.
-Proof.
-  unfold tables_counterexample. destruct (find (fun k => negb (agree_on k)) all_keys) as [k0|] eqn:F; [|discriminate].
-  apply find_some in F. destruct F as [Hin Hn]. unfold agree_on in Hn.
-  remember (lookup compiled_tbl k0) as c0 eqn:Ec. remember (lookup meta_tbl k0) as m0 eqn:Em.
-  intros H. assert (Hk : k0 = k) by congruence. assert (Hc : c0 = c) by congruence. assert (Hm : m0 = m) by congruence.
-  subst k0 c m. split; [exact Hin|]. split; [exact Ec|]. split; [exact Em|].
-  intros E. rewrite E, opt_eqb_refl in Hn. discriminate.
-Qed.
+Proof. exact (counterexample_sound_gen compiled_tbl meta_tbl all_keys k c m). Qed.
 
 Section Eval.
   Variable Val Err : Type.
@@ -87,7 +95,9 @@ Section Eval.
   Lemma eval_same (e : expr Val Err) :
     eval_with Val Err interp not_evaluable compiled_tbl e = eval_with Val Err interp not_evaluable meta_tbl e.
   Proof.
-    induction e as [v|x|f|f a IHa|f a IHa b IHb]; cbn [eval_with]; try reflexivity.
+    induction e as [v|x|f|f a IHa|f a IHa b IHb]; cbn [eval_with].
+    - reflexivity.
+    - reflexivity.
     - apply apply_same.
     - rewrite IHa. destruct (eval_with _ _ _ _ meta_tbl a); [apply apply_same | reflexivity].
     - rewrite IHa, IHb. destruct (eval_with _ _ _ _ meta_tbl a); [|reflexivity].
